@@ -16,6 +16,7 @@ use ntex_rt::{BlockFuture, Driver, Notify, PollResult, Runner, Runtime};
 thread_local! {
     static IDLE: RefCell<Option<Waker>> = const { RefCell::new(None) };
     static IDLE_GEN: Cell<u64> = const { Cell::new(0) };
+    pub static SPINS: Cell<u64> = const { Cell::new(0) };
 }
 
 #[derive(Debug, Default)]
@@ -43,11 +44,26 @@ impl Driver for Drv {
     }
 
     fn run(&self, rt: &Runtime) -> io::Result<()> {
+        let mut again: u64 = 0;
         loop {
             match rt.poll() {
                 PollResult::Ready => return Ok(()),
-                PollResult::PollAgain => continue,
+                PollResult::PollAgain => {
+                    // a task that keeps waking itself never lets the runtime go idle: after a
+                    // generous budget report it (SPIN counter) and let the harness continue
+                    again += 1;
+                    if again > 20_000 {
+                        again = 0;
+                        if let Some(w) = IDLE.with(|s| s.borrow_mut().take()) {
+                            SPINS.with(|c| c.set(c.get() + 1));
+                            IDLE_GEN.with(|g| g.set(g.get() + 1));
+                            w.wake();
+                        }
+                    }
+                    continue;
+                }
                 PollResult::Pending => {
+                    again = 0;
                     // exact quiescence: nothing is runnable
                     if let Some(w) = IDLE.with(|s| s.borrow_mut().take()) {
                         IDLE_GEN.with(|g| g.set(g.get() + 1));
